@@ -19,6 +19,9 @@ Oracles
                 (bit-identical for everything that has no visit axis).
   R3 (direct)   on the loader's own tensors: observation counts == number of mask ones, sum of squares, likelihood
                 terms and the noise estimate == float64 reference over OBSERVED entries only; everything finite.
+  R4 (complete) whatever does not involve the observed values (trajectories at visits that hold an observation,
+                regularity terms, every parameter but the noise) is bit-identical to the evaluation of the same cohort
+                without any missing entry (same shapes, same operations).
 """
 
 from __future__ import annotations
@@ -33,7 +36,6 @@ import pandas as pd
 import torch
 
 import leaspy.models  # noqa: F401  (before leaspy.variables.*)
-from leaspy.exceptions import LeaspyConvergenceError
 from leaspy.io.data import Data, Dataset
 from leaspy.utils.weighted_tensor import WeightedTensor, sum_dim
 from leaspy.variables.specs import LVL_FT, ModelParameter
@@ -64,7 +66,8 @@ ASSUMPTIONS = [
     "(fixed cycle of normal / uniform answers); when only the padding length changes, sampler decisions are assumed not "
     "to sit within rounding distance of the scripted uniform draws",
     "a feature observed for no individual at all makes its noise estimate undefined (NaN): recorded, not judged",
-    "mixture model not covered; ordinal observation models do not exist in this version",
+    "mixture model not covered; ordinal observation models do not exist in this version; LME and constant models "
+    "(which read the data through get_times_patient / get_values_patient / mask > 0 only) belong to C20",
     "single torch thread, float32, CPU, PYTHONHASHSEED=0",
 ]
 
